@@ -98,68 +98,100 @@ def alpnList : String → Option (List String)
   | "h2only" => some ["h2"]
   | _ => none
 
-structure Case where
+/-- One client of a case. -/
+structure ClientPart where
   scheme : Scheme
   uri : Uri
   client : ClientSetup
+
+/-- The server of a case, the transport, and the run mode. -/
+structure ServerPart where
   serverCert : Cert
   alpn : String
   sops : List SOp
   inner : InnerInfo
+  /-- `-x2`: every client connects twice (handlers run twice on success) -/
+  twice : Bool
+
+structure Case where
+  c : ClientPart
+  s : ServerPart
 
 def splitAt? (ts : List String) : Option (List String × List String) :=
   match ts.span (· ≠ ";") with
   | (a, _ :: b) => some (a, b)
   | _ => none
 
-def parseCase (ts : List String) : Option Case :=
+/-- split a token list on `|` -/
+def splitBar (ts : List String) : List (List String) :=
+  ts.foldr (fun t acc => if t = "|" then [] :: acc else match acc with
+    | [] => [[t]]
+    | g :: gs => (t :: g) :: gs) [[]]
+
+def parseClient (ts : List String) : Option ClientPart :=
   match ts with
-  | "tls" :: sch :: uh :: rest =>
+  | sch :: uh :: cops =>
+    match schemeOf sch, hostOf uh, clientSetup cops with
+    | some scheme, some host, some client =>
+      some { scheme, uri := { scheme := some scheme, host := some host }, client }
+    | _, _, _ => none
+  | _ => none
+
+/-- transport token: `tcp|duplex` then any of `-lazy` (connect_with_connector_lazy + one retry),
+`-x2` (two connections per client), `-par` (clients run concurrently) — only `-x2` changes the
+expected outcome (handler count) -/
+def parseTransport (tr : String) : Option (InnerInfo × Bool) :=
+  match tr.splitOn "-" with
+  | base :: flags =>
+    let inner? : Option InnerInfo := if base = "tcp" then some .tcp else if base = "duplex" then some .other else none
+    if flags.all (fun f => f = "lazy" || f = "x2" || f = "par") then
+      inner?.map (fun i => (i, flags.contains "x2"))
+    else none
+  | [] => none
+
+def parseCases (ts : List String) : Option (List Case) :=
+  match ts with
+  | "tls" :: rest =>
     match splitAt? rest with
-    | some (cops, [sc, alpn, sops, tr]) =>
-      match schemeOf sch, hostOf uh, clientSetup cops, certOf sc, serverOps sops with
-      | some scheme, some host, some client, some serverCert, some sops =>
-        -- `-lazy`: connect_with_connector_lazy (same decision logic; the harness also retries once)
-        let inner? : Option InnerInfo :=
-          if tr = "tcp" || tr = "tcp-lazy" then some .tcp
-          else if tr = "duplex" || tr = "duplex-lazy" then some .other else none
-        match inner? with
-        | some inner => some { scheme, uri := { scheme := some scheme, host := some host }, client, serverCert, alpn, sops, inner }
-        | none => none
-      | _, _, _, _, _ => none
+    | some (cpart, [sc, alpn, sops, tr]) =>
+      match mapM? parseClient (splitBar cpart), certOf sc, serverOps sops, parseTransport tr with
+      | some clients, some serverCert, some sops, some (inner, twice) =>
+        let s : ServerPart := { serverCert, alpn, sops, inner, twice }
+        some (clients.map fun c => { c, s })
+      | _, _, _, _ => none
     | _ => none
   | _ => none
 
 /-! ### model side -/
 
 def endpointOf (c : Case) : Except CfgErr (Endpoint Cert (List Cert)) :=
-  match c.client with
-  | .notls => .ok (Endpoint.fromShared c.uri)
-  | .auto => Endpoint.new sys c.uri
-  | .ops l => (Endpoint.fromShared c.uri).tlsConfig sys (ClientTlsConfig.build l)
+  match c.c.client with
+  | .notls => .ok (Endpoint.fromShared c.c.uri)
+  | .auto => Endpoint.new sys c.c.uri
+  | .ops l => (Endpoint.fromShared c.c.uri).tlsConfig sys (ClientTlsConfig.build l)
 
 /-- The server of the case. `h2` is tonic's own acceptor configured through `ServerTlsConfig`;
 the other ALPN variants are a hand-rolled rustls acceptor given the same identity and the
 client-auth mode the *oracle* reads off the ops (it is not tonic code). -/
 def serverOf (c : Case) : Option (ServerKind Cert (List Cert)) :=
-  let idOp : SOp := .identity { cert := some [c.serverCert], keyOk := true, accepted := true }
-  if c.alpn = "h2" then
-    match (ServerTlsConfig.build (idOp :: c.sops)).tlsAcceptor with
+  let idOp : SOp := .identity { cert := some [c.s.serverCert], keyOk := true, accepted := true }
+  if c.s.alpn = "h2" then
+    match (ServerTlsConfig.build (idOp :: c.s.sops)).tlsAcceptor with
     | .ok s => some (.tonicTls s)
     | _ => none
-  else if c.alpn = "plain" then some .plain
+  else if c.s.alpn = "plain" then some .plain
   else
-    match alpnList c.alpn with
+    match alpnList c.s.alpn with
     | none => none
     | some al =>
       let mode : Option (ClientAuth Cert) :=
-        match Spec.Tls.clientCa c.sops with
+        match Spec.Tls.clientCa c.s.sops with
         | none => some .off
         | some pem =>
           let rs := Spec.Tls.pemRoots pem
           if rs.isEmpty then none
-          else if Spec.Tls.authOptional c.sops then some (.optional rs) else some (.required rs)
-      mode.map fun m => .userTls { chain := [c.serverCert], clientAuth := m, alpn := al }
+          else if Spec.Tls.authOptional c.s.sops then some (.optional rs) else some (.required rs)
+      mode.map fun m => .userTls { chain := [c.s.serverCert], clientAuth := m, alpn := al }
 
 def cfgErrTok : CfgErr → String
   | .invalidUri => "invalid-uri"
@@ -187,14 +219,14 @@ def certsTok : Option (List Cert) → String
   | none => "none"
   | some ch => s!"{ch.length}:eq"
 
-def outcomeToks (o : Outcome (List Cert)) : String :=
+def outcomeToks (twice : Bool) (o : Outcome (List Cert)) : String :=
   let res := if o.ok then "ok" else "fail:" ++ (match o.why with | some w => whyTok w | none => "?")
   let peer := match o.peer with | none => "-" | some p => certsTok p
   let ext := match o.ext with
     | none => "-"
     | some none => "absent"
     | some (some e) => certsTok e
-  s!"res={res} cfg=ok h={o.handlers} peer={peer} ext={ext} plain={if o.plaintext then 1 else 0} dial=1"
+  s!"res={res} cfg=ok h={if twice then 2 * o.handlers else o.handlers} peer={peer} ext={ext} plain={if o.plaintext then 1 else 0} dial=1"
 
 def modelOut (c : Case) : String :=
   match endpointOf c with
@@ -202,7 +234,7 @@ def modelOut (c : Case) : String :=
   | .ok ep =>
     match serverOf c with
     | none => "server-config-unusable"
-    | some srv => outcomeToks (scenario ep srv c.inner handshake)
+    | some srv => outcomeToks c.s.twice (scenario ep srv c.s.inner handshake)
 
 /-! ### spec verdict on the OBSERVED output (written against `Spec/`, not the model) -/
 
@@ -227,43 +259,43 @@ def parseObs (ts : List String) : Option Obs :=
 
 /-- The chain the client is configured to present, per the oracle. -/
 def clientChain (c : Case) : Option (List Cert) :=
-  match c.client with
+  match c.c.client with
   | .ops l => (Spec.Tls.configuredIdentity l).bind (·.cert)
   | _ => none
 
 /-- Server ALPN list and server ops of the case, for the oracle. -/
 def serverAlpn (c : Case) : Option (List String) :=
-  if c.alpn = "h2" then some ["h2"] else alpnList c.alpn
+  if c.s.alpn = "h2" then some ["h2"] else alpnList c.s.alpn
 
 /-- `MayTransmit` decided in the test world. -/
 def mayTransmit (c : Case) : Bool :=
-  match c.client, serverAlpn c with
+  match c.c.client, serverAlpn c with
   | .ops l, some sal =>
-    (match Spec.Tls.expectedName l c.uri with
-     | some name => verifies (Spec.Tls.configuredRoots sys l) [c.serverCert] name
+    (match Spec.Tls.expectedName l c.c.uri with
+     | some name => verifies (Spec.Tls.configuredRoots sys l) [c.s.serverCert] name
      | none => false) &&
     (negotiate [alpnH2] sal == some (some alpnH2) || Spec.Tls.assumes l)
   | .auto, some sal =>
     -- generated-code path: TLS with the enabled roots only, name from the URI, no opt-out
-    (match c.uri.host with
-     | some name => verifies (Spec.Tls.configuredRoots sys ([.withEnabledRoots] : List COp)) [c.serverCert] name
+    (match c.c.uri.host with
+     | some name => verifies (Spec.Tls.configuredRoots sys ([.withEnabledRoots] : List COp)) [c.s.serverCert] name
      | none => false) && negotiate [alpnH2] sal == some (some alpnH2)
   | _, _ => false
 
 /-- `MayServe` decided in the test world from what the handler saw (`ext`). -/
 def mayServe (c : Case) (o : Obs) : Bool :=
-  match Spec.Tls.clientCa c.sops with
+  match Spec.Tls.clientCa c.s.sops with
   | none => true
   | some pem =>
     (match clientChain c with
      | some ch => o.ext == s!"{ch.length}:eq" && verifiesClient (Spec.Tls.pemRoots pem) ch
      | none => false) ||
-    (Spec.Tls.authOptional c.sops && o.ext == "none")
+    (Spec.Tls.authOptional c.s.sops && o.ext == "none")
 
 def specVerdict (c : Case) (o : Obs) : String :=
-  let https := c.scheme = .https
+  let https := c.c.scheme = .https
   let served := o.resOk || o.handlers > 0
-  let tlsServer := c.alpn ≠ "plain"
+  let tlsServer := c.s.alpn ≠ "plain"
   verdict [
     ("no-handler-when-call-failed", o.resOk || o.handlers == 0),
     ("no-call-without-config", o.cfgOk || !served),
@@ -273,16 +305,16 @@ def specVerdict (c : Case) (o : Obs) : String :=
     -- whatever is exposed is the presented chain, and it verified against the client CA
     ("exposed-certs-are-the-verified-chain",
       !(o.handlers > 0) || o.ext == "none" || o.ext == "absent" ||
-        (match clientChain c, Spec.Tls.clientCa c.sops with
+        (match clientChain c, Spec.Tls.clientCa c.s.sops with
          | some ch, some pem => o.ext == s!"{ch.length}:eq" && verifiesClient (Spec.Tls.pemRoots pem) ch
          | _, _ => false)),
     -- a verified chain IS exposed (TlsConnectInfo; and Request::peer_certs over TCP)
     ("verified-certs-are-exposed",
       !(tlsServer && o.handlers > 0) ||
-        (match clientChain c, Spec.Tls.clientCa c.sops with
+        (match clientChain c, Spec.Tls.clientCa c.s.sops with
          | some ch, some pem =>
            !(verifiesClient (Spec.Tls.pemRoots pem) ch) ||
-             (o.ext == s!"{ch.length}:eq" && (c.inner != .tcp || o.peer == o.ext))
+             (o.ext == s!"{ch.length}:eq" && (c.s.inner != .tcp || o.peer == o.ext))
          | _, _ => true)),
     ("peer-certs-only-from-tls-info", !(o.handlers > 0) || o.peer == "none" || o.peer == o.ext)
   ]
@@ -305,12 +337,22 @@ def handle (case obs : List String) : String × String :=
   match case with
   | ["srvcfg", ops] => handleSrvCfg ops obs
   | _ =>
-  match parseCase case with
+  match parseCases case with
   | none => bad
-  | some c =>
-    let v := match parseObs obs with
-      | some o => specVerdict c o
-      | none => "fail:unreadable-observation"
-    (modelOut c, v)
+  | some cs =>
+    let model := String.intercalate " | " (cs.map modelOut)
+    -- one observation group per client, separated by `|`
+    let groups := splitBar obs
+    let v :=
+      if groups.length ≠ cs.length then "fail:unreadable-observation"
+      else
+        let vs := (cs.zip groups).map fun (c, g) =>
+          match parseObs g with
+          | some o => specVerdict c o
+          | none => "fail:unreadable-observation"
+        match vs.find? (· ≠ "ok") with
+        | some bad => bad
+        | none => "ok"
+    (model, v)
 
 end DriverC15
